@@ -52,6 +52,16 @@ def generate(tier, seed):
     cases = []
     for i in range(n_eos):
         spec = E.random_spec(rng, family="template" if rng.random() < 0.85 else "bag")
+        if i % 4 == 1:
+            # the phases are known on limited temperature ranges (as after a real trace):
+            # nothing the two solvers are compared on may depend on where the tables end, as
+            # long as the temperatures met stay inside them.  Strong transitions (a minimal
+            # velocity exists) get a share, so that vMin is compared under such ranges
+            if spec["family"] == "template" and rng.random() < 0.5:
+                spec["alN"] = (1 - spec["psiN"]) / 3 + float(rng.uniform(0.3, 0.9))
+            Tn_ = spec["Tn"]
+            spec["rangeL"] = [float(rng.uniform(0.3, 0.8)) * Tn_, 1e4 * Tn_]
+            spec["rangeH"] = [float(rng.uniform(0.3, 0.8)) * Tn_, 1e4 * Tn_]
         cases.append({"i": i, "spec": spec, "setting": int(rng.integers(len(SETTINGS))),
                       "nv": n_v, "s": int(rng.integers(1 << 30))})
     return cases
